@@ -418,6 +418,18 @@ def generate(run_seed, tier):
                 op["order"] = max(2, (1 << b) + r.choice([-1, 0, 1, 2]))
             else:
                 op["order"] = max(2, r.getrandbits(r.randrange(2, 600)))
+            if r.random() < 0.04:
+                # very large orders: requests of 255 / 256 / 511 / 512 / 513
+                # and more bytes
+                b = r.choice([2039, 2040, 2041, 2047, 2048, 2049, 4087, 4088,
+                              4089, 4095, 4096, 4097, r.randrange(600, 9000)])
+                op["order"] = (1 << b) + r.choice([-1, 0, 1, 2]) \
+                    if r.random() < 0.5 else max(2, r.getrandbits(b))
+            # an entropy source that itself draws from the library (for
+            # another order) while serving a request
+            if r.random() < 0.1:
+                op["reenter"] = max(2, r.getrandbits(r.choice(
+                    [3, 9, 17, 64, 130, 257, 520])))
         if name in ("sign", "default_sign", "generate", "default_generate"):
             op["d"] = libx.key_scalar(r, mc.n)
             op["msg"] = core.hx(r.randbytes(r.choice([0, 1, 8])))
@@ -498,6 +510,9 @@ def execute(prog):
             if name in ("randrange", "two_draws"):
                 n = op["order"]
                 dev = _bounded(device(op, n))
+                if op.get("reenter"):
+                    dev = _reentrant(dev, lu, op["reenter"], op["dseed"])
+                    core.bump(out["probes"], "reentrant_source")
                 v = draw(lambda: lu.randrange(n, dev), dev)
                 log.append((name, n.bit_length(), pol, len(dev.dev.log)))
                 if v is None:
@@ -511,6 +526,7 @@ def execute(prog):
                          "policy %s (stream %s)" % (
                              n, v, pol, dev.dev.consumed().hex()[:200]))
                 used = dev.dev.consumed()
+                _conserve(fail, "randrange", n, used)
                 rep = world.SimEntropy("scripted", script=used)
                 try:
                     v2 = lu.randrange(n, rep)
@@ -600,6 +616,7 @@ def execute(prog):
                         continue
                     fail("stream/" + name, "a key was generated without "
                          "drawing from the supplied entropy source")
+                _conserve(fail, name, n, used)
                 rep = world.SimEntropy("scripted", script=used)
                 try:
                     sk2 = lk.SigningKey.generate(curve, rep, hf)
@@ -649,6 +666,7 @@ def execute(prog):
                         continue
                     fail("stream/" + name, "a signature was made without "
                          "drawing the nonce from the entropy source")
+                _conserve(fail, name, n, used)
                 rep = world.SimEntropy("scripted", script=used)
                 try:
                     k_expect = lu.randrange(n, rep)
@@ -727,6 +745,18 @@ def execute(prog):
     return out
 
 
+def _conserve(fail, site, n, used):
+    """Counting bound, independent of how bytes are mapped to values: a
+    sampler that is exactly uniform over the n-1 values of [1, n-1] gives
+    each value probability 1/(n-1); an execution that consumed B bits has
+    probability 2^-B and ends in one value, so 2^-B <= 1/(n-1) on every
+    execution."""
+    if (1 << (8 * len(used))) < n - 1:
+        fail("entropy/" + site, "a value in [1, n-1] for a %d-bit order was "
+             "produced from only %d entropy bytes: it cannot be uniformly "
+             "distributed" % (n.bit_length(), len(used)))
+
+
 class _bounded(object):
     """Limits the number of requests an adversarial stream serves, so a
     sampler legitimately spinning on a constant stream ends with NeedMore."""
@@ -744,6 +774,30 @@ class _bounded(object):
         if self.dev.calls >= self.cap:
             raise world.NeedMore()
         return self.dev(nbytes)
+
+
+class _reentrant(object):
+    """An entropy source that, while serving a request, draws a value for
+    another order from the library itself (its own inner stream)."""
+
+    def __init__(self, inner, lu, order, seed):
+        import random
+        self.inner = inner
+        self.dev = inner.dev
+        self.lu = lu
+        self.order = order
+        self.r = random.Random(seed ^ 0x7E7E)
+        self.depth = 0
+
+    def __call__(self, nbytes):
+        if self.depth == 0:
+            self.depth += 1
+            try:
+                self.lu.randrange(self.order, world.SimEntropy(
+                    "uniform", r=self.r))
+            finally:
+                self.depth -= 1
+        return self.inner(nbytes)
 
 
 class _bounded_sized(_bounded):
